@@ -5,6 +5,11 @@ LOG = []            # (kind, component, args) - reset by the check at the start 
 
 CONST_A = ('const', 'A')
 CONST_LIST = [1, 2, 3]
+ZERO = 0
+NOTHING = None
+EMPTY = []
+FALSE = False
+EMPTY_TEXT = ''
 
 
 class Holder:
